@@ -8,10 +8,14 @@
        copies, UCB1's N, Popularity's normalisation flag are all included in the equality);
      * at the facade: fit on the used bandit and on the fresh bandit are accepted or rejected alike, leave the
        same fitted flag, generator and cold_arms, and related implementation states.
-    ..._partial: linear and neighbourhood policies are covered by the refit-versus-fresh relation executed on
-    the implementation; LinTS is refuted on the code (finding D8: per-arm generator copies survive fit). *)
-From Coq Require Import List ZArith Bool Arith QArith Qcanon.
-From MW Require Import Num Assoc AssocFacts Rng Par CF CFInv CFClean CFForget CFSpec Matrix Lin Warm WarmInv Nbr NbrFacts NbrIndep Clu Tree Mab FacadeCF FacadeArms NumLaws QcInst.
+     * LINEAR policies: fit(D) on the used policy equals (Leibniz) fit(D) on [lin_strip s], the freshly constructed
+       policy in which each per-arm regression holds the generator copy it holds in s - NOTHING else survives a fit
+       (lin_fit_forgets, lin_strip_is_fresh).  For LinGreedy / LinUCB those copies are never read: every operation
+       commutes with erasing them and answers alike (LinSim), so fit discards everything observable.  For LinTS they
+       are read by predict: that is finding D8, characterised exactly by this theorem.
+    ..._partial: neighbourhood policies are covered by the refit-versus-fresh relation executed on the implementation. *)
+From Coq Require Import List ZArith Bool Arith QArith Qcanon Permutation.
+From MW Require Import Num Assoc AssocFacts Rng Par CF CFInv CFClean CFForget CFSpec Matrix Lin Warm WarmInv Nbr NbrFacts NbrIndep LshFacts Clu Tree CellFacts Mab FacadeCF FacadeArms MoreFacts NumLaws CFAlg Sim Extra QcInst OrderFacts ExpIrrel LinInv FacadeLin LpInv NbrInv CluTreeInv FacadeAll ToyFacts C09All C10All LinForget LinSim MatrixFacts LinSpec.
 Import ListNotations.
 
 Theorem C07_fit_forgets_context_free :
@@ -51,5 +55,89 @@ Theorem C07_invariants_hold_after_every_history :
   mab_inv N m -> is_cf (state_after N aeqb RG m ops) /\ mab_inv N (state_after N aeqb RG m ops).
 Proof. exact @run_preserves_inv. Qed.
 Print Assumptions C07_invariants_hold_after_every_history.
+
+Theorem C07_linear_fit_keeps_only_private_generator_copies :
+  forall (R A G : Type) (N : Num R) (aeqb : A -> A -> bool) (s : (@lin R A G)) (g : G) 
+    (ds : list A) (rs : list R) (cx : (@mat R)),
+  lin_fit N aeqb (lin_strip s) g ds rs cx = lin_fit N aeqb s g ds rs cx.
+Proof. exact @lin_fit_forgets. Qed.
+Print Assumptions C07_linear_fit_keeps_only_private_generator_copies.
+
+Theorem C07_linear_stripped_policy_is_the_constructed_one :
+  forall (R A G : Type) (N : Num R) (s : (@lin R A G)),
+  lin_keys_ok s ->
+  lin_exp_zero N s ->
+  let f := lin_fresh N s in
+  l_kind (lin_strip s) = l_kind f /\
+  l_alpha (lin_strip s) = l_alpha f /\
+  l_eps (lin_strip s) = l_eps f /\
+  l_l2 (lin_strip s) = l_l2 f /\
+  l_scale (lin_strip s) = l_scale f /\
+  l_kf_ainv (lin_strip s) = l_kf_ainv f /\
+  l_nf (lin_strip s) = l_nf f /\
+  l_arms (lin_strip s) = l_arms f /\
+  l_exp (lin_strip s) = l_exp f /\
+  l_status (lin_strip s) = l_status f /\
+  map
+    (fun am : A * (@ridge R G) =>
+     (fst am,
+      {|
+        r_beta := r_beta (snd am);
+        r_A := r_A (snd am);
+        r_Ainv := r_Ainv (snd am);
+        r_Xty := r_Xty (snd am);
+        r_scaler := r_scaler (snd am);
+        r_rng := None
+      |})) (l_models (lin_strip s)) = l_models f.
+Proof. exact @lin_strip_is_fresh. Qed.
+Print Assumptions C07_linear_stripped_policy_is_the_constructed_one.
+
+Theorem C07_lingreedy_linucb_fit_ignores_the_copies :
+  forall (R A G : Type) (N : Num R) (aeqb : A -> A -> bool) (s : (@lin R A G)) (g : G) 
+    (ds : list A) (rs : list R) (cx : (@mat R)),
+  lin_erase (fst (lin_fit N aeqb (lin_erase s) g ds rs cx)) =
+  lin_erase (fst (lin_fit N aeqb s g ds rs cx)) /\
+  snd (lin_fit N aeqb (lin_erase s) g ds rs cx) = snd (lin_fit N aeqb s g ds rs cx).
+Proof. exact @lin_fit_erase. Qed.
+Print Assumptions C07_lingreedy_linucb_fit_ignores_the_copies.
+
+Theorem C07_lingreedy_linucb_partial_fit_ignores_the_copies :
+  forall (R A G : Type) (N : Num R) (aeqb : A -> A -> bool) (s : (@lin R A G)) (g : G) 
+    (ds : list A) (rs : list R) (cx : (@mat R)),
+  lin_erase (fst (lin_partial_fit N aeqb (lin_erase s) g ds rs cx)) =
+  lin_erase (fst (lin_partial_fit N aeqb s g ds rs cx)) /\
+  snd (lin_partial_fit N aeqb (lin_erase s) g ds rs cx) = snd (lin_partial_fit N aeqb s g ds rs cx).
+Proof. exact @lin_partial_fit_erase. Qed.
+Print Assumptions C07_lingreedy_linucb_partial_fit_ignores_the_copies.
+
+Theorem C07_lingreedy_linucb_queries_ignore_the_copies :
+  forall (R A G : Type) (N : Num R) (aeqb : A -> A -> bool) (RG : RngOps R G) 
+    (s : (@lin R A G)) (g : G) (cx : (@mat R)),
+  l_kind s <> RTs ->
+  fst (fst (lin_expectations N aeqb RG (lin_erase s) g cx)) =
+  fst (fst (lin_expectations N aeqb RG s g cx)) /\
+  snd (lin_expectations N aeqb RG (lin_erase s) g cx) = snd (lin_expectations N aeqb RG s g cx).
+Proof. exact @lin_expectations_erase. Qed.
+Print Assumptions C07_lingreedy_linucb_queries_ignore_the_copies.
+
+Theorem C07_lingreedy_linucb_warm_start_ignores_the_copies :
+  forall (R A G : Type) (N : Num R) (aeqb : A -> A -> bool) (s : (@lin R A G)) (g : G) 
+    (keys : list A) (raw : A -> A -> R) (q : R),
+  option_map lin_erase (lin_warm_start N aeqb (lin_erase s) g keys raw q) =
+  option_map lin_erase (lin_warm_start N aeqb s g keys raw q).
+Proof. exact @lin_warm_start_erase. Qed.
+Print Assumptions C07_lingreedy_linucb_warm_start_ignores_the_copies.
+
+Theorem C07_lingreedy_linucb_add_arm_ignores_the_copies :
+  forall (R A G : Type) (N : Num R) (aeqb : A -> A -> bool) (s : (@lin R A G)) (a : A),
+  lin_erase (lin_add_arm N aeqb (lin_erase s) a) = lin_erase (lin_add_arm N aeqb s a).
+Proof. exact @lin_add_arm_erase. Qed.
+Print Assumptions C07_lingreedy_linucb_add_arm_ignores_the_copies.
+
+Theorem C07_lingreedy_linucb_remove_arm_ignores_the_copies :
+  forall (R A G : Type) (aeqb : A -> A -> bool) (s : (@lin R A G)) (a : A),
+  lin_erase (lin_remove_arm aeqb (lin_erase s) a) = lin_erase (lin_remove_arm aeqb s a).
+Proof. exact @lin_remove_arm_erase. Qed.
+Print Assumptions C07_lingreedy_linucb_remove_arm_ignores_the_copies.
 
 
